@@ -56,8 +56,15 @@ func startRunProxy(dir string, extra []string, yaml string) (*runProxy, error) {
 	if err != nil {
 		return nil, err
 	}
-	port := freePort()
-	rp := &runProxy{cluster: cluster, log: log, addr: fmt.Sprintf("127.0.0.1:%d", port), exit: -1}
+	// an address no other process of this or a concurrent run is handed (IP and port are functions of pid and a sequence
+	// number): probed on 127.0.0.1, a port could be taken by someone else between the probe and the proxy's bind, and the
+	// readiness probe below would then talk to that someone
+	addr, aerr := c20FreeAddr()
+	if aerr != nil {
+		cluster.Close()
+		return nil, aerr
+	}
+	rp := &runProxy{cluster: cluster, log: log, addr: addr, exit: -1}
 	args := []string{"--contact-points", cluster.ContactPoint(), "--port", fmt.Sprint(cluster.Port), "--bind", rp.addr, "--max-protocol-version", "DSEv2",
 		"--heartbeat-interval", "30s", "--idle-timeout", "60s"}
 	args = append(args, extra...)
@@ -87,6 +94,9 @@ func startRunProxy(dir string, extra []string, yaml string) (*runProxy, error) {
 		defer cl.Close()
 		return cl.Options(1, 2*time.Second) == nil
 	}, 20*time.Second)
+	if ok {
+		time.Sleep(30 * time.Millisecond) // a proxy that could not bind its address has exited by now
+	}
 	if !ok || atomic.LoadInt32(&rp.exit) >= 0 {
 		rp.close()
 		return nil, fmt.Errorf("proxy.Run did not reach the running state (exit %d) with args %v", atomic.LoadInt32(&rp.exit), args)
@@ -252,6 +262,12 @@ func c12Config(c *Ctx, idx int) {
 		if sent == nil {
 			r.Inconc("c12: send event not found")
 			continue
+		}
+		if (cerr != nil || reply == nil || len(arrivals) == 0) && atomic.LoadInt32(&rp.exit) >= 0 {
+			// proxy.Run has returned (it could not bind its address, or was shut down): whoever answered, it was not the
+			// proxy under test
+			r.Inconc(fmt.Sprintf("c12 config %d: proxy.Run returned %d while the configuration was in use", idx, atomic.LoadInt32(&rp.exit)))
+			return
 		}
 		if cerr != nil || reply == nil || len(arrivals) == 0 {
 			r.Violate(mon.Violation{Signature: fmt.Sprintf("C12/request-not-served/%s/header=%s", class, desc.Header), Detail: fmt.Sprintf("config %s: %s %s request with consistency %s (header decorations %s, flags %s) reached %d backends, reply error: %v", cfgKey, desc.Version, desc.OpCode, clNames[spec.Consistency], desc.Header, desc.Flags, len(arrivals), cerr), Scenario: sc})
